@@ -23,9 +23,14 @@ use lightning_signer::bitcoin::{
     Address, Amount, CompressedPublicKey, Network, NetworkKind, OutPoint, ScriptBuf, Sequence,
     Transaction, TxIn, TxOut, Txid, Witness,
 };
-use lightning_signer::channel::CommitmentType;
+use lightning_signer::bitcoin::psbt::Psbt;
+use lightning_signer::bitcoin::{BlockHash, PubkeyHash, WPubkeyHash};
+use lightning_signer::channel::{ChannelId, ChannelSetup, CommitmentType};
 use lightning_signer::invoice::Invoice;
-use lightning_signer::lightning::ln::chan_utils::make_funding_redeemscript;
+use lightning_signer::lightning::ln::chan_utils::{make_funding_redeemscript, ChannelPublicKeys};
+use lightning_signer::lightning::ln::channel_keys::{
+    DelayedPaymentBasepoint, HtlcBasepoint, RevocationBasepoint, RevocationKey,
+};
 use lightning_signer::lightning::types::payment::PaymentHash;
 use lightning_signer::policy::error::ValidationErrorKind;
 use lightning_signer::signer::derive::KeyDerivationStyle;
@@ -38,9 +43,14 @@ use lightning_signer::util::velocity::{VelocityControlIntervalType, VelocityCont
 use lightning_signer::SendSync;
 use serde_json::{json, Value};
 use std::collections::BTreeSet;
-use std::sync::Mutex;
+use std::sync::{Arc, Mutex};
 use std::time::Instant;
+use vls_protocol::model::{Bip32KeyVersion, CloseInfo, PubKey, Utxo};
+use vls_protocol::msgs::{self, Message};
+use vls_protocol::psbt::StreamedPSBT;
+use vls_protocol::serde_bolt::{Array, Octets, WithSize};
 use vls_protocol_signer::approver::{Approve, NegativeApprover, PositiveApprover};
+use vls_protocol_signer::handler::{Error as HandlerError, Handler, InitHandler, RootHandler};
 use vls_verif::report::{self, finish, run_sharded, FinishSpec};
 use vls_verif::world::{World, WorldCfg};
 use vls_verif::{Cli, Report, Rng};
@@ -167,6 +177,33 @@ struct Case {
     ucks: Vec<Option<(SecretKey, Vec<Vec<u8>>)>>,
     tx: Transaction,
     opaths: Vec<DerivationPath>,
+    /// what goes over the protocol when the case is sent through the handler (SignWithdrawal / SignHtlcTxMingle)
+    wire: Option<Wire>,
+}
+
+/// The parts of a request that exist only on the wire.  `flags` of such a case are the ground truth of what the
+/// signer may take as known-segwit: the input's transaction is streamed along AND the spent output is segwit by
+/// construction (p2wpkh, p2tr, p2wsh, p2sh-p2wpkh).
+struct Wire {
+    /// the previous transaction of every input: `in_txs[i].output[tx.input[i].previous_output.vout] == prev_outs[i]`
+    in_txs: Vec<Transaction>,
+    /// the previous transaction is carried as `non_witness_utxo`
+    supplied: Vec<bool>,
+    /// wallet key index of the input (the utxo entry's `keyindex`); None: no utxo entry, the input is not ours to sign
+    keyindex: Vec<Option<u32>>,
+    /// the p2wpkh script nested in a p2sh-p2wpkh input (PSBT `redeem_script`)
+    nested: Vec<Option<ScriptBuf>>,
+    /// inputs spent with a unilateral-close key: the commitment point of the utxo's close_info
+    close: Vec<Option<Option<PublicKey>>>,
+}
+
+/// a Ready channel addressed the way the protocol addresses channels (peer id + dbid), whose unilateral-close keys
+/// the wire cases spend from
+struct CloseChan {
+    peer_id: [u8; 33],
+    dbid: u64,
+    channel_id: ChannelId,
+    anchors: bool,
 }
 
 // ---------------------------------------------------------------------------------------------
@@ -259,6 +296,8 @@ struct Ctx {
     vel_name: String,
     window: Option<Window>,
     cfg_json: Value,
+    /// None: not tried yet; Some(None): could not be set up
+    close_chan: Option<Option<CloseChan>>,
 }
 
 fn rand_key(rng: &mut Rng) -> SecretKey {
@@ -399,6 +438,7 @@ fn new_ctx(rng: &mut Rng) -> Ctx {
         vel_name,
         window,
         cfg_json,
+        close_chan: None,
     }
 }
 
@@ -658,9 +698,101 @@ fn build_out(ctx: &mut Ctx, rng: &mut Rng, cls: Cls, huge: bool, chans: &mut Vec
     }
 }
 
-fn wallet_prev_script(ctx: &Ctx, rng: &mut Rng, kind: &str) -> ScriptBuf {
-    let path = gen_path(rng, ctx.native);
-    xpub_child_script(ctx, &ctx.account_xpub, &path, kind)
+/// a wallet-owned previous output; over the protocol an input's key is named by ONE index (utxo.keyindex)
+fn wallet_prev_script(ctx: &Ctx, rng: &mut Rng, kind: &str, wire: bool) -> (ScriptBuf, DerivationPath) {
+    let path = gen_path(rng, ctx.native || wire);
+    (xpub_child_script(ctx, &ctx.account_xpub, &path, kind), path)
+}
+
+/// Set up (once per world) the channel whose unilateral-close outputs the wire cases spend.
+fn ensure_close_chan(ctx: &mut Ctx, rng: &mut Rng, r: &mut Report) {
+    if ctx.close_chan.is_some() {
+        return;
+    }
+    let peer_id = rand_pubkey(rng, &ctx.secp).serialize();
+    let dbid = 1_000_000 + rng.below(1000);
+    let anchors = rng.chance(1, 3);
+    let secp = &ctx.secp;
+    let setup = ChannelSetup {
+        is_outbound: rng.bool(),
+        channel_value_sat: rng.range(100_000, 16_000_000),
+        push_value_msat: 0,
+        funding_outpoint: OutPoint { txid: Txid::from_byte_array(rng.bytes::<32>()), vout: rng.below(3) as u32 },
+        holder_selected_contest_delay: *rng.pick(&[6u16, 144, 2016]),
+        holder_shutdown_script: None,
+        counterparty_points: ChannelPublicKeys {
+            funding_pubkey: rand_pubkey(rng, secp),
+            revocation_basepoint: RevocationBasepoint(rand_pubkey(rng, secp)),
+            payment_point: rand_pubkey(rng, secp),
+            delayed_payment_basepoint: DelayedPaymentBasepoint(rand_pubkey(rng, secp)),
+            htlc_basepoint: HtlcBasepoint(rand_pubkey(rng, secp)),
+        },
+        counterparty_selected_contest_delay: *rng.pick(&[6u16, 7, 144, 1000]),
+        counterparty_shutdown_script: None,
+        commitment_type: if anchors { CommitmentType::AnchorsZeroFeeHtlc } else { CommitmentType::StaticRemoteKey },
+    };
+    let node = ctx.world.node.clone();
+    let res = report::catch(|| -> Result<ChannelId, String> {
+        let (id, _) = node.new_channel(dbid, &peer_id, &node).map_err(|e| format!("new_channel: {:?}", e))?;
+        node.setup_channel(id.clone(), None, setup, &DerivationPath::master()).map_err(|e| format!("setup_channel: {:?}", e))?;
+        Ok(id)
+    });
+    ctx.close_chan = Some(match res {
+        Ok(Ok(channel_id)) => {
+            r.count("harness.close_channel_set_up");
+            Some(CloseChan { peer_id, dbid, channel_id, anchors })
+        }
+        other => {
+            r.count("harness.close_channel_failed");
+            r.note(&format!("close channel could not be set up: {:?}", other).chars().take(200).collect::<String>());
+            None
+        }
+    });
+}
+
+/// An input that spends a unilateral-close output of the close channel: the previous script, the key and witness
+/// stack suffix (what the handler will derive from the utxo's close_info; used here to BUILD the spent output and
+/// for the oracle's weight bound) and the commitment point that goes into close_info.
+fn close_input(
+    ctx: &mut Ctx,
+    rng: &mut Rng,
+    r: &mut Report,
+) -> Option<(ScriptBuf, (SecretKey, Vec<Vec<u8>>), Option<PublicKey>)> {
+    ensure_close_chan(ctx, rng, r);
+    let (channel_id, anchors) = match ctx.close_chan.as_ref() {
+        Some(Some(cc)) => (cc.channel_id.clone(), cc.anchors),
+        _ => return None,
+    };
+    // with a commitment point: the delayed to-local output (p2wsh); without: the to-remote output (p2wpkh, or
+    // p2wsh with anchors)
+    let cp = if rng.bool() { Some(rand_pubkey(rng, &ctx.secp)) } else { None };
+    let node = ctx.world.node.clone();
+    let secp = ctx.secp.clone();
+    let res = report::catch(|| {
+        node.with_channel(&channel_id, |chan| {
+            let rev = cp
+                .as_ref()
+                .map(|p| RevocationKey::from_basepoint(&secp, &chan.counterparty_pubkeys().revocation_basepoint, p));
+            chan.get_unilateral_close_key(&cp, &rev)
+        })
+    });
+    match res {
+        Ok(Ok((key, stack))) => {
+            let last = stack.last()?.clone();
+            let script = if cp.is_none() && !anchors {
+                let pk = PublicKey::from_slice(&last).ok()?;
+                key_script(&ctx.secp, &pk, "p2wpkh", ctx.network)
+            } else {
+                Address::p2wsh(&ScriptBuf::from_bytes(last), ctx.network).script_pubkey()
+            };
+            r.count(if cp.is_some() { "wire.close_input.to_local_delayed" } else if anchors { "wire.close_input.to_remote_anchors" } else { "wire.close_input.to_remote_p2wpkh" });
+            Some((script, (key, stack), cp))
+        }
+        _ => {
+            r.count("harness.close_key_unavailable");
+            None
+        }
+    }
 }
 
 /// weight the way check_onchain_tx estimates it (used only to AIM the generator, never to judge)
@@ -692,7 +824,7 @@ fn weight_upper_bound(tx: &Transaction, ucks: &[Option<(SecretKey, Vec<Vec<u8>>)
     w
 }
 
-fn gen_case(ctx: &mut Ctx, rng: &mut Rng, r: &mut Report) -> Case {
+fn gen_case(ctx: &mut Ctx, rng: &mut Rng, r: &mut Report, wire: bool) -> Case {
     let funding_ok = ctx.chans_made + 3 <= ctx.chan_budget;
     let scenario = ["legit", "one-bad-output", "fee-defect", "nonsegwit-funding", "extreme", "random", "e10-alias"]
         [rng.weighted(&[34, 24, 14, 5, 7, 8, 8])];
@@ -775,14 +907,31 @@ fn gen_case(ctx: &mut Ctx, rng: &mut Rng, r: &mut Report) -> Case {
     let n_in = 1 + rng.usize(4);
     let mut in_kinds = vec![];
     let allow_nonsegwit = !any_funding || scenario == "random" || scenario == "extreme";
+    // over the protocol the signer takes only witness programs whose transaction is streamed along as known-segwit:
+    // nested-segwit and foreign inputs would make every funding case a refusal there, so they are rarer in them
+    let w_nested = if wire && any_funding { 3 } else { 14 };
+    let w_foreign = if wire && !allow_nonsegwit { 0 } else { 4 };
     for _ in 0..n_in {
         let k = [InKind::P2wpkh, InKind::P2shP2wpkh, InKind::P2tr, InKind::P2wshUck, InKind::Garbage, InKind::P2pkh]
-            [rng.weighted(&[50, 14, 14, 8, 4, if allow_nonsegwit { 10 } else { 0 }])];
+            [rng.weighted(&[50, w_nested, 14, 8, w_foreign, if allow_nonsegwit { 10 } else { 0 }])];
         in_kinds.push(k);
+    }
+    // wire cases: which inputs have their transaction streamed along (non_witness_utxo)
+    let mut supplied = vec![true; n_in];
+    if wire && allow_nonsegwit {
+        for s in supplied.iter_mut() {
+            *s = rng.chance(3, 4);
+        }
     }
     if scenario == "nonsegwit-funding" {
         let i = rng.usize(n_in);
-        in_kinds[i] = InKind::P2pkh;
+        if wire && rng.bool() {
+            // the defect is a segwit input whose transaction is NOT streamed along: not known to be segwit
+            in_kinds[i] = *rng.pick(&[InKind::P2wpkh, InKind::P2tr]);
+            supplied[i] = false;
+        } else {
+            in_kinds[i] = InKind::P2pkh;
+        }
     }
     if scenario == "e10-alias" {
         for k in in_kinds.iter_mut() {
@@ -795,18 +944,55 @@ fn gen_case(ctx: &mut Ctx, rng: &mut Rng, r: &mut Report) -> Case {
     let mut prev_scripts = vec![];
     let mut flags = vec![];
     let mut ucks: Vec<Option<(SecretKey, Vec<Vec<u8>>)>> = vec![];
-    for k in in_kinds.iter() {
+    let mut keyindex: Vec<Option<u32>> = vec![];
+    let mut nested: Vec<Option<ScriptBuf>> = vec![];
+    let mut close: Vec<Option<Option<PublicKey>>> = vec![];
+    for ki in 0..n_in {
         inputs.push(TxIn {
             previous_output: OutPoint { txid: Txid::from_byte_array(rng.bytes::<32>()), vout: rng.below(4) as u32 },
             script_sig: ScriptBuf::new(),
             sequence: *rng.pick(&[Sequence::ZERO, Sequence::MAX, Sequence::ENABLE_RBF_NO_LOCKTIME]),
             witness: Witness::default(),
         });
+        let mut k = in_kinds[ki];
+        let mut close_in = None;
+        if wire && k == InKind::P2wshUck {
+            // over the protocol a unilateral-close key comes from a channel named by the utxo's close_info
+            close_in = close_input(ctx, rng, r);
+            if close_in.is_none() {
+                k = InKind::P2wpkh;
+                in_kinds[ki] = k;
+            }
+        }
+        let wallet_kind = match k {
+            InKind::P2wpkh => Some(("p2wpkh", true)),
+            InKind::P2shP2wpkh => Some(("p2sh-p2wpkh", true)),
+            InKind::P2tr => Some(("p2tr", true)),
+            InKind::P2pkh => Some(("p2pkh", false)),
+            _ => None,
+        };
+        let mut kx = None;
+        let mut nest = None;
+        let mut cl = None;
         let (script, flag, uck) = match k {
-            InKind::P2wpkh => (wallet_prev_script(ctx, rng, "p2wpkh"), true, None),
-            InKind::P2shP2wpkh => (wallet_prev_script(ctx, rng, "p2sh-p2wpkh"), true, None),
-            InKind::P2tr => (wallet_prev_script(ctx, rng, "p2tr"), true, None),
-            InKind::P2pkh => (wallet_prev_script(ctx, rng, "p2pkh"), false, None),
+            InKind::P2wpkh | InKind::P2shP2wpkh | InKind::P2tr | InKind::P2pkh => {
+                let (kind, flag) = wallet_kind.unwrap();
+                let (script, path) = wallet_prev_script(ctx, rng, kind, wire);
+                if wire {
+                    if path.len() == 1 && !rng.chance(1, 10) {
+                        kx = Some(u32::from(path[0]));
+                    }
+                    if k == InKind::P2shP2wpkh {
+                        nest = Some(xpub_child_script(ctx, &ctx.account_xpub, &path, "p2wpkh"));
+                    }
+                }
+                (script, flag, None)
+            }
+            InKind::P2wshUck if wire => {
+                let (script, uck, cp) = close_in.unwrap();
+                cl = Some(cp);
+                (script, true, Some(uck))
+            }
             InKind::P2wshUck => {
                 let a = rand_pubkey(rng, &ctx.secp);
                 let b = rand_pubkey(rng, &ctx.secp);
@@ -817,23 +1003,34 @@ fn gen_case(ctx: &mut Ctx, rng: &mut Rng, r: &mut Report) -> Case {
             InKind::Garbage => {
                 let glen = 1 + rng.usize(30);
                 let script = ScriptBuf::from_bytes(rng.vec(glen));
-                // make sure it is not accidentally a recognised template
-                let script = if script.is_p2pkh() || script.is_p2sh() || script.is_p2wpkh() || script.is_p2wsh() || script.is_p2tr() {
+                // make sure it is not accidentally a recognised template (nor, on the wire, any witness program)
+                let script = if script.is_p2pkh()
+                    || script.is_p2sh()
+                    || script.is_p2wpkh()
+                    || script.is_p2wsh()
+                    || script.is_p2tr()
+                    || script.is_witness_program()
+                {
                     ScriptBuf::from_bytes(vec![0x6a, 0x01, 0x00])
                 } else {
                     script
                 };
-                (script, true, None)
+                // the direct API is TOLD the flag (assumption: truthfully, taken as segwit); on the wire a foreign
+                // non-witness-program output is not segwit
+                (script, !wire, None)
             }
         };
         prev_scripts.push(script);
-        flags.push(flag);
+        flags.push(if wire { flag && supplied[ki] } else { flag });
         ucks.push(uck);
+        keyindex.push(kx);
+        nested.push(nest);
+        close.push(cl);
     }
 
     let version = if rng.chance(1, 60) { *rng.pick(&[Version::ONE, Version(3), Version(0)]) } else { Version::TWO };
     let lock_time = if rng.bool() { LockTime::ZERO } else { LockTime::from_consensus(rng.below(800_000) as u32) };
-    let tx = Transaction {
+    let mut tx = Transaction {
         version,
         lock_time,
         input: inputs,
@@ -909,6 +1106,47 @@ fn gen_case(ctx: &mut Ctx, rng: &mut Rng, r: &mut Report) -> Case {
         .map(|(v, s)| TxOut { value: Amount::from_sat(*v), script_pubkey: s })
         .collect();
 
+    // ---- wire cases: the inputs' previous transactions exist BEFORE the txid is fixed (the spending transaction
+    // names them by txid, and the funding outpoints the channels are set up for below depend on the final txid)
+    let wire_info = if wire {
+        let mut in_txs = vec![];
+        for i in 0..n_in {
+            let witness_prog = matches!(in_kinds[i], InKind::P2wpkh | InKind::P2tr | InKind::P2wshUck);
+            let vout = rng.usize(3);
+            let n_out = vout + 1 + rng.usize(2);
+            let mut pouts = vec![];
+            for j in 0..n_out {
+                if j == vout {
+                    pouts.push(prev_outs[i].clone());
+                } else {
+                    // decoys of the other kind and another value: a signer looking at the wrong output is noticed
+                    let script = if witness_prog {
+                        ScriptBuf::new_p2pkh(&PubkeyHash::from_byte_array(rng.bytes::<20>()))
+                    } else {
+                        ScriptBuf::new_p2wpkh(&WPubkeyHash::from_byte_array(rng.bytes::<20>()))
+                    };
+                    pouts.push(TxOut { value: Amount::from_sat(gen_value(rng)), script_pubkey: script });
+                }
+            }
+            let in_tx = Transaction {
+                version: Version::TWO,
+                lock_time: LockTime::ZERO,
+                input: vec![TxIn {
+                    previous_output: OutPoint { txid: Txid::from_byte_array(rng.bytes::<32>()), vout: rng.below(3) as u32 },
+                    script_sig: ScriptBuf::new(),
+                    sequence: Sequence::MAX,
+                    witness: Witness::default(),
+                }],
+                output: pouts,
+            };
+            tx.input[i].previous_output = OutPoint { txid: in_tx.compute_txid(), vout: vout as u32 };
+            in_txs.push(in_tx);
+        }
+        Some(Wire { in_txs, supplied, keyindex, nested, close })
+    } else {
+        None
+    };
+
     // ---- set up the channels for exactly this txid
     for pc in chans.iter_mut() {
         let node_ctx = &ctx.node_ctx;
@@ -955,7 +1193,7 @@ fn gen_case(ctx: &mut Ctx, rng: &mut Rng, r: &mut Report) -> Case {
     }
 
     let opaths = outs.iter().map(|o| o.opath.clone()).collect();
-    Case { scenario, fee_target, outs, chans, in_kinds, prev_outs, flags, ucks, tx, opaths }
+    Case { scenario, fee_target, outs, chans, in_kinds, prev_outs, flags, ucks, tx, opaths, wire: wire_info }
 }
 
 fn case_json(ctx: &Ctx, case: &Case) -> Value {
@@ -973,6 +1211,10 @@ fn case_json(ctx: &Ctx, case: &Case) -> Value {
             k.name(), case.flags[i], case.prev_outs[i].value.to_sat().to_string(), hex::encode(case.prev_outs[i].script_pubkey.as_bytes()),
             case.ucks[i].as_ref().map(|(_, s)| s.iter().map(|v| v.len()).collect::<Vec<_>>())
         ])).collect::<Vec<_>>(),
+        "wire_inputs_[prev_txid:vout,tx_streamed(non_witness_utxo),utxo_keyindex,close_info_commitment_point]": case.wire.as_ref().map(|w| (0..case.tx.input.len()).map(|i| json!([
+            case.tx.input[i].previous_output.to_string(), w.supplied[i], w.keyindex[i],
+            w.close[i].as_ref().map(|cp| cp.map(|p| p.to_string()).unwrap_or_else(|| "none".into()))
+        ])).collect::<Vec<_>>()),
         "channels": case.chans.iter().map(|c| json!({
             "channel_id": hex::encode(c.ctx.channel_id.inner()),
             "tx_vout": c.vout, "setup_vout": c.setup_vout,
@@ -1335,6 +1577,211 @@ fn psbt_segwit_probe(rng: &mut Rng, r: &mut Report, shard: usize, h: u64, seed: 
     }
 }
 
+// ---------------------------------------------------------------------------------------------
+// the same request through the protocol handler
+// ---------------------------------------------------------------------------------------------
+
+/// RecApprover behind the Arc the handler wants
+struct SharedRec(Arc<RecApprover>);
+impl SendSync for SharedRec {}
+impl Approve for SharedRec {
+    fn approve_invoice(&self, i: &Invoice) -> bool {
+        self.0.approve_invoice(i)
+    }
+    fn approve_keysend(&self, h: PaymentHash, a: u64) -> bool {
+        self.0.approve_keysend(h, a)
+    }
+    fn approve_onchain(&self, tx: &Transaction, prev_outs: &[TxOut], unknown_indices: &[usize]) -> bool {
+        self.0.approve_onchain(tx, prev_outs, unknown_indices)
+    }
+}
+
+/// Send the case as `SignWithdrawal` (or its sibling `SignHtlcTxMingle`) to a RootHandler built on the world's node
+/// with the given approver.  Ok(Ok(true)): the handler signed (…Reply); Ok(Ok(false)): refused as "unapproved
+/// destination"; Ok(Err(tag)): refused otherwise; Err: panic.
+fn wire_call(
+    ctx: &Ctx,
+    case: &Case,
+    rng: &mut Rng,
+    r: &mut Report,
+    approver: Arc<dyn Approve>,
+    mingle: bool,
+    version: u32,
+) -> Result<Result<bool, String>, String> {
+    use lightning_signer::bitcoin::consensus::deserialize;
+    let w = case.wire.as_ref().expect("harness: wire case");
+    let name = if mingle { "SignHtlcTxMingle" } else { "SignWithdrawal" };
+    let n_in = case.tx.input.len();
+    let mut psbt = match Psbt::from_unsigned_tx(case.tx.clone()) {
+        Ok(p) => p,
+        Err(e) => {
+            r.count("handler.harness_psbt_build_failed");
+            return Ok(Err(format!("harness-psbt:{:?}", e).chars().take(60).collect()));
+        }
+    };
+    // the handler reads the previous outputs from witness_utxo and panics without one (malformed wire input):
+    // now and then that is what it gets
+    let omit_witness_utxo = rng.chance(1, 250) && w.supplied.iter().any(|s| !*s);
+    for i in 0..n_in {
+        if w.supplied[i] {
+            psbt.inputs[i].non_witness_utxo = Some(w.in_txs[i].clone());
+            // optional next to the transaction (the decoder fills it in from the transaction)
+            if rng.bool() {
+                psbt.inputs[i].witness_utxo = Some(case.prev_outs[i].clone());
+            }
+        } else if !omit_witness_utxo {
+            psbt.inputs[i].witness_utxo = Some(case.prev_outs[i].clone());
+        }
+        if let Some(script) = &w.nested[i] {
+            if rng.chance(2, 3) {
+                psbt.inputs[i].redeem_script = Some(script.clone());
+            }
+        }
+    }
+    // the handler reads only the PATH of an output's derivation entry; the key is a dummy
+    let dummy = ctx.account_xpub.public_key;
+    let fp = ctx.account_xpub.fingerprint();
+    for (i, o) in case.outs.iter().enumerate() {
+        if o.opath.is_empty() {
+            continue;
+        }
+        if o.txout.script_pubkey.is_p2tr() && rng.bool() {
+            psbt.outputs[i].tap_key_origins.insert(dummy.x_only_public_key().0, (vec![], (fp, o.opath.clone())));
+            r.count("handler.output_path.tap_key_origins");
+        } else {
+            psbt.outputs[i].bip32_derivation.insert(dummy, (fp, o.opath.clone()));
+            r.count("handler.output_path.bip32_derivation");
+        }
+    }
+    let bytes = psbt.serialize();
+    let streamed: StreamedPSBT = match report::catch(|| deserialize::<StreamedPSBT>(&bytes)) {
+        Ok(Ok(sp)) => sp,
+        Ok(Err(e)) => {
+            r.count("handler.psbt_decode_refused");
+            r.set_add("handler_psbt_decode_refusals", &format!("{:?}", e).chars().take(80).collect::<String>());
+            return Ok(Err("psbt-decode".into()));
+        }
+        Err(p) => {
+            r.count("handler.psbt_decode_panic");
+            return Err(p);
+        }
+    };
+    let mut utxos = vec![];
+    for i in 0..n_in {
+        let op = case.tx.input[i].previous_output;
+        let close_info = match (&w.close[i], ctx.close_chan.as_ref()) {
+            (Some(cp), Some(Some(cc))) => Some(CloseInfo {
+                channel_id: cc.dbid,
+                peer_id: PubKey(cc.peer_id),
+                commitment_point: cp.map(|p| PubKey(p.serialize())),
+                is_anchors: cc.anchors,
+                csv: 1 + rng.below(2016) as u32,
+            }),
+            _ => None,
+        };
+        if w.keyindex[i].is_none() && close_info.is_none() {
+            continue;
+        }
+        utxos.push(Utxo {
+            txid: op.txid,
+            outnum: op.vout,
+            amount: case.prev_outs[i].value.to_sat(),
+            keyindex: w.keyindex[i].unwrap_or(0),
+            is_p2sh: case.in_kinds[i] == InKind::P2shP2wpkh,
+            script: Octets(case.prev_outs[i].script_pubkey.to_bytes()),
+            close_info,
+            is_in_coinbase: false,
+        });
+    }
+    if rng.bool() {
+        utxos.reverse();
+    }
+    let n_utxos = utxos.len();
+    let msg = if mingle {
+        Message::SignHtlcTxMingle(msgs::SignHtlcTxMingle { peer_id: PubKey(ctx.account_xpub.public_key.serialize()), dbid: 1 + rng.below(100), utxos: Array(utxos), psbt: WithSize(streamed) })
+    } else {
+        Message::SignWithdrawal(msgs::SignWithdrawal { utxos: Array(utxos), psbt: WithSize(streamed) })
+    };
+    let node = ctx.world.node.clone();
+    let res = report::catch(move || {
+        let mut init = InitHandler::new(0, node, approver, version);
+        init.handle(Message::HsmdInit(msgs::HsmdInit {
+            key_version: Bip32KeyVersion { pubkey_version: 0x043587CF, privkey_version: 0x04358394 },
+            chain_params: BlockHash::all_zeros(),
+            encryption_key: None,
+            dev_privkey: None,
+            dev_bip32_seed: None,
+            dev_channel_secrets: None,
+            dev_channel_secrets_shaseed: None,
+            hsm_wire_min_version: 2,
+            hsm_wire_max_version: 6,
+        }))
+        .expect("hsmd init");
+        let root: RootHandler = init.into();
+        root.handle(msg)
+    });
+    match res {
+        Ok(Ok(reply)) => {
+            let signed_psbt = if mingle {
+                reply.as_any().downcast_ref::<msgs::SignHtlcTxMingleReply>().map(|m| &m.psbt.0.inner)
+            } else {
+                reply.as_any().downcast_ref::<msgs::SignWithdrawalReply>().map(|m| &m.psbt.0.inner)
+            };
+            match signed_psbt {
+                Some(p) => {
+                    r.count(&format!("handler.{}.ok", name));
+                    r.count(&format!("handler.version.{}.ok", version));
+                    let signed = p.inputs.iter().filter(|i| i.final_script_witness.is_some()).count();
+                    r.count_n("handler.inputs_signed", signed as u64);
+                    r.count_n("handler.utxo_entries_in_signed_requests", n_utxos as u64);
+                    if signed < n_utxos {
+                        // a p2pkh input gets its signature in a witness field too, so this is not expected
+                        r.count("handler.fewer_inputs_signed_than_utxo_entries");
+                    }
+                    if p.unsigned_tx.compute_txid() != case.tx.compute_txid() {
+                        r.count("handler.reply_tx_differs_from_request");
+                        r.note("the PSBT in a SignWithdrawalReply carries another transaction than the request");
+                    }
+                    Ok(Ok(true))
+                }
+                None => {
+                    r.count(&format!("handler.{}.unexpected_reply_type", name));
+                    r.note("the handler answered SignWithdrawal/SignHtlcTxMingle with another reply type");
+                    Ok(Err("unexpected-reply".into()))
+                }
+            }
+        }
+        Ok(Err(e)) => {
+            let st = match &e {
+                HandlerError::Signing(st) | HandlerError::Temporary(st) => Some(st.message().to_string()),
+                HandlerError::Protocol(_) => None,
+            };
+            match st {
+                Some(m) if m == "unapproved destination" => {
+                    r.count(&format!("handler.{}.unapproved", name));
+                    Ok(Ok(false))
+                }
+                Some(m) => {
+                    r.count(&format!("handler.{}.refused", name));
+                    r.count(&format!("handler.version.{}.refused", version));
+                    Ok(Err(status_tag(&m)))
+                }
+                None => {
+                    r.count(&format!("handler.{}.protocol_error", name));
+                    Ok(Err(format!("protocol:{:?}", e).chars().take(60).collect()))
+                }
+            }
+        }
+        Err(p) => {
+            r.count(&format!("handler.{}.panic", name));
+            if omit_witness_utxo {
+                r.count("handler.expected_panic.input_without_witness_utxo");
+            }
+            Err(p)
+        }
+    }
+}
+
 fn history(rng: &mut Rng, r: &mut Report, shard: usize, h: u64, steps: u64, seed: u64) {
     psbt_segwit_probe(rng, r, shard, h, seed);
     let mut ctx = new_ctx(rng);
@@ -1390,14 +1837,32 @@ fn history(rng: &mut Rng, r: &mut Report, shard: usize, h: u64, steps: u64, seed
                 ctx = new_ctx(rng);
             }
         }
-        let case = gen_case(&mut ctx, rng, r);
+        // entry: the library API directly, or the same request through the protocol handler (a quarter of the cases),
+        // where the approver kinds are those of the direct entries
+        let wire = rng.chance(1, 4);
+        let entry_kind = if wire { 1 + rng.weighted(&[70, 15, 15]) } else { rng.weighted(&[50, 34, 8, 8]) };
+        let mingle = wire && rng.chance(1, 5);
+        let version = *rng.pick(&[4u32, 5, 6]);
+        let case = gen_case(&mut ctx, rng, r, wire);
         r.eval(1);
         r.count(&format!("scenario.{}", case.scenario));
+        if wire {
+            r.count(&format!("handler.scenario.{}", case.scenario));
+        }
         for o in case.outs.iter() {
             r.count(&format!("class.{}.offered", o.cls.name()));
         }
-        let entry_kind = rng.weighted(&[50, 34, 8, 8]);
-        let entry: &str = ["check_onchain_tx", "handle_proposed_onchain/recording", "handle_proposed_onchain/positive", "handle_proposed_onchain/negative"][entry_kind];
+        let approver_name = ["", "recording", "positive", "negative"][entry_kind];
+        let entry_string = if wire {
+            format!("handler:{}(v{})/{}", if mingle { "SignHtlcTxMingle" } else { "SignWithdrawal" }, version, approver_name)
+        } else if entry_kind == 0 {
+            "check_onchain_tx".to_string()
+        } else {
+            format!("handle_proposed_onchain/{}", approver_name)
+        };
+        let entry: &str = &entry_string;
+        // counter prefix of the approver-path outcomes
+        let pfx = if wire { "handler.request" } else { "handle_proposed_onchain" };
         let base = case_json(&ctx, &case);
         let detail = |extra: Value| -> Value {
             json!({"replay": {"seed": seed, "shard": shard, "history": h, "step": s}, "case": base, "observed": extra})
@@ -1436,12 +1901,22 @@ fn history(rng: &mut Rng, r: &mut Report, shard: usize, h: u64, steps: u64, seed
                 }
             }
             _ => {
-                let rec = RecApprover { answer: entry_kind == 1 && !rng.chance(1, 5), asked: Mutex::new(vec![]) };
-                let res = report::catch(|| match entry_kind {
-                    1 => rec.handle_proposed_onchain(&node, &case.tx, &case.flags, &case.prev_outs, &case.ucks, &case.opaths),
-                    2 => PositiveApprover().handle_proposed_onchain(&node, &case.tx, &case.flags, &case.prev_outs, &case.ucks, &case.opaths),
-                    _ => NegativeApprover().handle_proposed_onchain(&node, &case.tx, &case.flags, &case.prev_outs, &case.ucks, &case.opaths),
-                });
+                let rec = Arc::new(RecApprover { answer: entry_kind == 1 && !rng.chance(1, 5), asked: Mutex::new(vec![]) });
+                let res: Result<Result<bool, String>, String> = if wire {
+                    let approver: Arc<dyn Approve> = match entry_kind {
+                        1 => Arc::new(SharedRec(rec.clone())),
+                        2 => Arc::new(PositiveApprover()),
+                        _ => Arc::new(NegativeApprover()),
+                    };
+                    wire_call(&ctx, &case, rng, r, approver, mingle, version)
+                } else {
+                    report::catch(|| match entry_kind {
+                        1 => rec.handle_proposed_onchain(&node, &case.tx, &case.flags, &case.prev_outs, &case.ucks, &case.opaths),
+                        2 => PositiveApprover().handle_proposed_onchain(&node, &case.tx, &case.flags, &case.prev_outs, &case.ucks, &case.opaths),
+                        _ => NegativeApprover().handle_proposed_onchain(&node, &case.tx, &case.flags, &case.prev_outs, &case.ucks, &case.opaths),
+                    })
+                    .map(|x| x.map_err(|st| status_tag(st.message())))
+                };
                 let asked = rec.asked.lock().unwrap().clone();
                 if asked.len() > 1 {
                     r.note("approver consulted more than once for one transaction");
@@ -1451,7 +1926,7 @@ fn history(rng: &mut Rng, r: &mut Report, shard: usize, h: u64, steps: u64, seed
                 }
                 match res {
                     Ok(Ok(true)) => {
-                        r.count("handle_proposed_onchain.ok_true");
+                        r.count(&format!("{}.ok_true", pfx));
                         outcome = "ok-true".into();
                         // which indices were explicitly approved?
                         let approved: Option<BTreeSet<usize>> = match entry_kind {
@@ -1477,22 +1952,30 @@ fn history(rng: &mut Rng, r: &mut Report, shard: usize, h: u64, steps: u64, seed
                             r.count("ante.accepted_with_approved_unknown");
                             outcome = "ok-true-approved".into();
                         }
+                        if wire {
+                            r.count("handler.ante.accepted");
+                            if case.outs.iter().any(|o| o.cls == Cls::FundGood) {
+                                r.count("handler.ante.accepted_good_funding");
+                            }
+                            if approved.as_ref().map(|a| !a.is_empty()).unwrap_or(false) {
+                                r.count("handler.ante.accepted_with_approved_unknown");
+                            }
+                        }
                         judged = Some(judge_accept(&mut ctx, &case, r, entry, approved.as_ref(), &detail));
                     }
                     Ok(Ok(false)) => {
-                        r.count("handle_proposed_onchain.ok_false");
+                        r.count(&format!("{}.ok_false", pfx));
                         outcome = "ok-false".into();
                         if entry_kind == 1 && asked.is_empty() {
                             r.note("handle_proposed_onchain returned Ok(false) without consulting the approver");
                         }
                     }
-                    Ok(Err(st)) => {
-                        let tag = status_tag(st.message());
-                        r.count(&format!("handle_proposed_onchain.err.{}", tag));
+                    Ok(Err(tag)) => {
+                        r.count(&format!("{}.err.{}", pfx, tag));
                         outcome = format!("err:{}", tag);
                     }
                     Err(p) => {
-                        r.count("handle_proposed_onchain.panic");
+                        r.count(&format!("{}.panic", pfx));
                         r.set_add("panics", &p.chars().take(160).collect::<String>());
                         outcome = "panic".into();
                     }
@@ -1511,6 +1994,25 @@ fn history(rng: &mut Rng, r: &mut Report, shard: usize, h: u64, steps: u64, seed
             }
             if case.scenario == "nonsegwit-funding" {
                 r.count("sole_defect_refused.nonsegwit-input-when-funding");
+            }
+            if let Some(w) = case.wire.as_ref() {
+                // the same antecedents, through the handler
+                if bad.len() == 1 && case.scenario == "one-bad-output" {
+                    r.count("handler.sole_defect_refused.bad-funding-output");
+                }
+                if case.scenario == "nonsegwit-funding" {
+                    r.count(if w.supplied.iter().all(|s| *s) {
+                        "handler.sole_defect_refused.nonsegwit-input-when-funding"
+                    } else {
+                        "handler.sole_defect_refused.input-transaction-not-streamed-when-funding"
+                    });
+                }
+                if case.scenario == "fee-defect" || case.scenario == "e10-alias" {
+                    r.count("handler.fee_defect_refused");
+                }
+                if case.outs.iter().any(|o| o.cls.is_unknown()) {
+                    r.count("handler.refused_with_unknown_output");
+                }
             }
             if case.scenario == "fee-defect" || case.scenario == "e10-alias" {
                 r.count(&format!("fee_defect_refused.{}", case.fee_target));
@@ -1584,6 +2086,22 @@ fn main() {
     }
     report.require("sole_defect_refused.nonsegwit-input-when-funding", 50);
     report.require("fee_class.over.refused", 200);
+    // the protocol-handler entry was really exercised (a handler entry that silently does nothing is INCONCLUSIVE)
+    report.require("handler.SignWithdrawal.ok", 500);
+    report.require("handler.SignWithdrawal.refused", 500);
+    report.require("handler.SignHtlcTxMingle.ok", 100);
+    report.require("handler.ante.accepted", 600);
+    report.require("handler.ante.accepted_good_funding", 100);
+    report.require("handler.ante.accepted_with_approved_unknown", 100);
+    report.require("handler.inputs_signed", 1000);
+    report.require("handler.sole_defect_refused.bad-funding-output", 50);
+    report.require("handler.sole_defect_refused.nonsegwit-input-when-funding", 20);
+    report.require("handler.sole_defect_refused.input-transaction-not-streamed-when-funding", 20);
+    report.require("handler.fee_defect_refused", 100);
+    report.require("handler.refused_with_unknown_output", 100);
+    for v in [4, 5, 6] {
+        report.require(&format!("handler.version.{}.ok", v), 100);
+    }
     report.require("fee_class.negative.refused", 100);
     let level = "exploration";
     finish(
@@ -1591,12 +2109,13 @@ fn main() {
         FinishSpec {
             cli: &cli,
             level,
-            rule: "seeded worlds (policy max_feerate, fee velocity unlimited/generous/default/tight, native/ldk wallet paths, allowlisted scripts and xpubs); per world a sequence of transactions built from a ground-truth class table (wallet p2wpkh/p2sh-p2wpkh/p2tr with path, wallet with wrong path, foreign key with path, allowlisted script, allowlisted-xpub child, good funding output of a channel set up for this txid:vout with validated initial commitment, near-miss funding outputs, unknown) with 1-4 inputs (segwit, non-segwit, uniclose p2wsh, foreign) and fees aimed at 0 / legal / the bound / over the bound / 2^32-feerate aliases / 2^64-msat wraps / negative, sent to Node::check_onchain_tx or Approve::handle_proposed_onchain (recording, positive, negative approvers). Oracle on acceptance: no unapproved unknown output, no near-miss funding output, all inputs segwit when funding, 0 <= sum(in)-sum(out) <= (max_feerate+1)*W/1000 with W a generous weight upper bound (u128), sliding-window sum of accepted fees <= fee velocity limit; reported unknown indices must equal the by-construction unknown set. distinct = (entry/approver, scenario, set of output classes, any non-segwit input, fee class, velocity kind, outcome/tag)",
+            rule: "seeded worlds (policy max_feerate, fee velocity unlimited/generous/default/tight, native/ldk wallet paths, allowlisted scripts and xpubs); per world a sequence of transactions built from a ground-truth class table (wallet p2wpkh/p2sh-p2wpkh/p2tr with path, wallet with wrong path, foreign key with path, allowlisted script, allowlisted-xpub child, good funding output of a channel set up for this txid:vout with validated initial commitment, near-miss funding outputs, unknown) with 1-4 inputs (segwit, non-segwit, uniclose p2wsh, foreign) and fees aimed at 0 / legal / the bound / over the bound / 2^32-feerate aliases / 2^64-msat wraps / negative, sent to Node::check_onchain_tx or Approve::handle_proposed_onchain (recording, positive, negative approvers), or - a quarter of the cases - as SignWithdrawal / SignHtlcTxMingle (protocol versions 4-6) to a RootHandler built on the node with the same approvers: a PSBT decoded as StreamedPSBT whose inputs carry their previous transactions (generated before the txid is fixed; non_witness_utxo and/or witness_utxo), p2sh redeem scripts, output paths as bip32_derivation / tap_key_origins entries, utxo entries with keyindex or close_info of a channel set up for the purpose; a signed reply is judged exactly like an acceptance of handle_proposed_onchain, with the ground-truth segwit flag of an input = its transaction was streamed along and the spent output is segwit by construction. Oracle on acceptance: no unapproved unknown output, no near-miss funding output, all inputs segwit when funding, 0 <= sum(in)-sum(out) <= (max_feerate+1)*W/1000 with W a generous weight upper bound (u128), sliding-window sum of accepted fees <= fee velocity limit; reported unknown indices must equal the by-construction unknown set. distinct = (entry/approver, scenario, set of output classes, any non-segwit input, fee class, velocity kind, outcome/tag)",
             assumptions: vec![
                 "segwit_flags and prev_out values are supplied truthfully by the caller (the flag of an input is its by-construction script type)".into(),
                 "a wallet address offered with a wrong (other wallet) path, and a push below 1 sat, are counted but not judged (no value leaves the node / loss < 1 sat)".into(),
                 "off-by-one changes exactly at the fee bound are not detected: the weight bound is deliberately generous (DESIGN.md section 4)".into(),
                 "panics of the overflow-checking profile are counted, not judged".into(),
+                "through the handler: refusals the direct API would not make (nested-segwit or foreign inputs are not known-segwit there, signing failures after the check passed) and panics on malformed wire input (an input without witness_utxo) are counted, not judged; a fee counted against the velocity limit by a request that then failed to sign is not in the oracle's window (the oracle's sum is a lower bound)".into(),
                 "restarts happen only after allowlist removals; persistence of the fee velocity control across restarts belongs to C12".into(),
                 "a transaction whose unknown outputs were explicitly approved is judged on its output classes, funding outputs and segwit inputs only; its fee and the fee velocity are outside the property (explicit approval covers the whole transaction) and are only counted (observed.approved_unknown_*)".into(),
             ],
